@@ -404,7 +404,7 @@ def r_singleton(e, R):
     # default size: max_workers=None keeps the current executor's size only when reuse is explicitly True and there is one
     mwp = "max_workers"
     keep = lambda n: n.kind == "stmt" and isinstance(n.ast, ast.Assign) and isinstance(n.ast.targets[0], ast.Name) and n.ast.targets[0].id == mwp \
-        and isinstance(n.ast.value, ast.Attribute) and n.ast.value.attr == "_max_workers"
+        and isinstance(n.ast.value, ast.Attribute) and n.ast.value.attr == e.anchors.max_workers_attr
     cpu = lambda n: n.kind == "stmt" and isinstance(n.ast, ast.Assign) and isinstance(n.ast.targets[0], ast.Name) and n.ast.targets[0].id == mwp \
         and isinstance(n.ast.value, ast.Call) and norm(n.ast.value.func).endswith("cpu_count")
 
@@ -479,7 +479,7 @@ def r_resize(e, R):
             "sentinels are posted while jobs are still queued: a worker can take its sentinel before a queued task, or tasks are stranded", e.loc(f, f.node))
     # _max_workers written under the management lock and before the posts
     mw = [n for n in g.nodes if n.kind == "stmt" and isinstance(n.ast, ast.Assign) and isinstance(n.ast.targets[0], ast.Attribute)
-          and n.ast.targets[0].attr == "_max_workers"]
+          and n.ast.targets[0].attr == e.anchors.max_workers_attr]
     started = [n for n in mw if any(g.dominates(w, n) for w in waitj)]
     R.check(bool(started) and all(e.token_in(held[n], a.pml) for n in started) and all(any(g.dominates(m, p) for m in started) for p in posts),
             "R-RESIZE", f"{f.short}: max_workers is updated under the management lock, before the sentinels", f.short, "self._max_workers = max_workers",
@@ -526,7 +526,7 @@ def r_resize(e, R):
         def ev(x):
             if isinstance(x, ast.Compare) and len(x.ops) == 1 and isinstance(x.ops[0], (ast.Eq, ast.NotEq)):
                 sides = [x.left, x.comparators[0]]
-                if any(isinstance(s_, ast.Name) and s_.id == tgt for s_ in sides) and any(isinstance(s_, ast.Attribute) and s_.attr == "_max_workers" for s_ in sides):
+                if any(isinstance(s_, ast.Name) and s_.id == tgt for s_ in sides) and any(isinstance(s_, ast.Attribute) and s_.attr == e.anchors.max_workers_attr for s_ in sides):
                     return val == isinstance(x.ops[0], ast.Eq)
             return None
         return ev
@@ -542,7 +542,7 @@ def r_resize(e, R):
                 if other and rets_:
                     noop.append((t_, other[0]))
     for t_, other in noop:
-        R.check(isinstance(other, ast.Attribute) and other.attr == "_max_workers" and isinstance(other.value, ast.Name) and other.value.id == selfn, "R-RESIZE",
+        R.check(isinstance(other, ast.Attribute) and other.attr == e.anchors.max_workers_attr and isinstance(other.value, ast.Name) and other.value.id == selfn, "R-RESIZE",
                 f"{f.short}: 'nothing to do' compares the request with the recorded size", f.short, norm(t_.ast),
                 f"the resize is skipped when the request equals `{norm(other)}` instead of the recorded max_workers: after some workers idled out the two differ, "
                 "the recorded size keeps its old value and the next submit tops the pool back up beyond the requested size", e.loc(f, t_.ast))
